@@ -216,15 +216,14 @@ def reset_z(
         tableau, qubit_position, measurement_determinism
     )
     if probabilistic:
-        tableau.phase[probabilistic] = intended_state
         tableau.iphase[probabilistic] = 0
-        return tableau
 
+    # the qubit is now in the Z eigenstate given by the outcome; flip it if needed
+    # (X also corrects the sign of every other generator that contains Z on this qubit)
+    if outcome == intended_state:
+        return tableau
     else:
-        if outcome == intended_state:
-            return tableau
-        else:
-            return x_gate(tableau, qubit_position)
+        return x_gate(tableau, qubit_position)
 
 
 def reset_x(
